@@ -263,6 +263,10 @@ class ExcAnalysis:
                 elif self._unpack_of_returned_tuple(fn, n, len(tgt.elts)):
                     ob(n, 'unpack', 'ValueError', f'`{ast.unparse(n)[:60]}`',
                        discharged='every return of the called package function is a tuple display of that length')
+                elif not any(isinstance(e, ast.Starred) for e in tgt.elts) and self._unpack_of_table_entry(fn, n, len(tgt.elts)):
+                    ob(n, 'unpack', 'ValueError', f'`{ast.unparse(n)[:60]}`',
+                       discharged='the value is an entry of a constant table of the package whose entries are all tuples of that '
+                                  'length (a missed lookup is None and is tested for before)')
                 else:
                     ob(n, 'unpack', 'ValueError', f'unpacking a value of unknown length: `{ast.unparse(n.value)[:60]}`')
             # ---- arithmetic ---------------------------------------------------------------------------------------------
@@ -607,6 +611,17 @@ class ExcAnalysis:
         rets = [r for r in iter_own_nodes(cs[0].node) if isinstance(r, ast.Return)]
         return bool(rets) and all(isinstance(r.value, ast.Tuple) and len(r.value.elts) == arity and
                                   not any(isinstance(e, ast.Starred) for e in r.value.elts) for r in rets)
+
+    def _unpack_of_table_entry(self, fn: FuncInfo, n: ast.Assign, arity: int) -> bool:
+        try:
+            entries = self._table_entries(fn, n.value, 0)
+        except Exception:       # pylint: disable=broad-except
+            return False
+        if not entries or not all(isinstance(e, ast.Tuple) and len(e.elts) == arity and
+                                  not any(isinstance(x, ast.Starred) for x in e.elts) for e in entries):
+            return False
+        # None (a miss) must be excluded on this path
+        return self.abs.at(fn, n.value, n).none == NO
 
     def _getattr_from_table(self, fn: FuncInfo, n: ast.Call) -> Optional[str]:
         """getattr(obj, name): obj has a known class and `name` can only be one of the strings that a constant table of the
